@@ -105,13 +105,26 @@ type scriptParams struct {
 	Prog   string `vgirpc:"prog"`
 	Cancel string `vgirpc:"cancel"`
 	Rec    string `vgirpc:"rec"`
+	Kind   string `vgirpc:"kind"` // dynamic method only: ex | pr
+	Hdr    int64  `vgirpc:"hdr"`  // > 0: StreamResult.Header carries this value
 }
 
 var scriptParamsSchema = arrow.NewSchema([]arrow.Field{
 	{Name: "prog", Type: arrow.BinaryTypes.String},
 	{Name: "cancel", Type: arrow.BinaryTypes.String},
 	{Name: "rec", Type: arrow.BinaryTypes.String},
+	{Name: "kind", Type: arrow.BinaryTypes.String},
+	{Name: "hdr", Type: arrow.PrimitiveTypes.Int64},
 }, nil)
+
+// scriptHeader is the stream header the scripted methods return.
+type scriptHeader struct {
+	N int64 `vgirpc:"n"`
+}
+
+var scriptHeaderSchema = arrow.NewSchema([]arrow.Field{{Name: "n", Type: arrow.PrimitiveTypes.Int64}}, nil)
+
+func (h *scriptHeader) ArrowSchema() *arrow.Schema { return scriptHeaderSchema }
 
 type streamCfg struct {
 	cache     bool
@@ -122,6 +135,7 @@ type streamCfg struct {
 	ext       bool  // configure an in-memory external storage
 	thr       int64 // externalize threshold (bytes)
 	zstd      bool  // compress uploads
+	hdr       bool  // register the static methods with a header type (ExchangeWithHeader / ProducerWithHeader)
 }
 
 type tokInfo struct {
@@ -147,13 +161,39 @@ type streamEnv struct {
 
 var streamTokenKey = []byte("verif-stream-token-key-0123456789abcdef")[:32]
 
-// registerScriptMethods registers the scripted methods "ex" (exchange) and "pr" (producer).
-func registerScriptMethods(srv *vgirpc.Server) {
-	vgirpc.Exchange(srv, "ex", scriptValueSchema, scriptValueSchema,
-		func(_ context.Context, _ *vgirpc.CallContext, p scriptParams) (*vgirpc.StreamResult, error) {
-			return &vgirpc.StreamResult{OutputSchema: scriptValueSchema, InputSchema: scriptValueSchema,
-				State: newScriptState("ex", p.Cancel, p.Prog, p.Rec)}, nil
-		})
+// scriptStreamHandler is the init handler of the scripted stream methods; kind "" = decided by the
+// request (the dynamic method).
+func scriptStreamHandler(kind string) func(context.Context, *vgirpc.CallContext, scriptParams) (*vgirpc.StreamResult, error) {
+	return func(_ context.Context, _ *vgirpc.CallContext, p scriptParams) (*vgirpc.StreamResult, error) {
+		k := kind
+		if k == "" {
+			k = p.Kind
+		}
+		res := &vgirpc.StreamResult{OutputSchema: scriptValueSchema, State: newScriptState(k, p.Cancel, p.Prog, p.Rec)}
+		if k == "ex" {
+			res.InputSchema = scriptValueSchema
+		}
+		if p.Hdr > 0 {
+			res.Header = &scriptHeader{N: p.Hdr}
+		}
+		return res, nil
+	}
+}
+
+// registerScriptMethods registers the scripted methods: "ex" (static exchange), "pr" (static
+// producer), "dyn" (dynamic stream: exchange or producer per call, header optional per call) and
+// the unary "un". withHeader selects the header-declaring registration of the static methods.
+func registerScriptMethods(srv *vgirpc.Server) { registerScriptMethodsHdr(srv, false) }
+
+func registerScriptMethodsHdr(srv *vgirpc.Server, withHeader bool) {
+	if withHeader {
+		vgirpc.ExchangeWithHeader(srv, "ex", scriptValueSchema, scriptValueSchema, scriptHeaderSchema, scriptStreamHandler("ex"))
+		vgirpc.ProducerWithHeader(srv, "pr", scriptValueSchema, scriptHeaderSchema, scriptStreamHandler("pr"))
+	} else {
+		vgirpc.Exchange(srv, "ex", scriptValueSchema, scriptValueSchema, scriptStreamHandler("ex"))
+		vgirpc.Producer(srv, "pr", scriptValueSchema, scriptStreamHandler("pr"))
+	}
+	vgirpc.DynamicStreamWithHeader(srv, "dyn", scriptHeaderSchema, scriptStreamHandler(""))
 	vgirpc.Unary(srv, "un", func(_ context.Context, cc *vgirpc.CallContext, p unaryParams) (string, error) {
 		for i := int64(0); i < p.Logs; i++ {
 			cc.ClientLog(vgirpc.LogInfo, fmt.Sprintf("m%d", i))
@@ -166,14 +206,11 @@ func registerScriptMethods(srv *vgirpc.Server) {
 		}
 		return strings.Repeat("a", int(p.Size)), nil
 	})
-	vgirpc.Producer(srv, "pr", scriptValueSchema,
-		func(_ context.Context, _ *vgirpc.CallContext, p scriptParams) (*vgirpc.StreamResult, error) {
-			return &vgirpc.StreamResult{OutputSchema: scriptValueSchema,
-				State: newScriptState("pr", p.Cancel, p.Prog, p.Rec)}, nil
-		})
 }
 
-func newStreamEnv(cfg streamCfg) *streamEnv { return newStreamEnvWith(cfg, registerScriptMethods) }
+func newStreamEnv(cfg streamCfg) *streamEnv {
+	return newStreamEnvWith(cfg, func(srv *vgirpc.Server) { registerScriptMethodsHdr(srv, cfg.hdr) })
+}
 
 // newStreamEnvWith builds the environment with a caller-chosen method registration.
 func newStreamEnvWith(cfg streamCfg, register func(*vgirpc.Server)) *streamEnv {
@@ -243,6 +280,8 @@ func parseStreamCfg(f []string) (streamCfg, bool) {
 			cfg.thr = n
 		case "zstd":
 			cfg.zstd = n != 0
+		case "hdr":
+			cfg.hdr = n != 0
 		default:
 			return cfg, false
 		}
@@ -253,6 +292,7 @@ func parseStreamCfg(f []string) (streamCfg, bool) {
 // ---------------------------------------------------------------- requests
 
 type httpResult struct {
+	aborted string // non-empty: the handler panicked (a real server aborts the connection)
 	status  int
 	rpcErr  bool
 	body    []byte
@@ -289,7 +329,20 @@ func (e *streamEnv) post(inst int, path string, body []byte, hdr map[string]stri
 		req.Header.Set(k, v)
 	}
 	rr := httptest.NewRecorder()
-	e.hs[inst].ServeHTTP(rr, req)
+	aborted := ""
+	func() {
+		// net/http recovers a panicking handler and aborts the connection: the client gets no
+		// complete response. In-process the same panic would unwind into the harness.
+		defer func() {
+			if rv := recover(); rv != nil {
+				aborted = fmt.Sprint(rv)
+			}
+		}()
+		e.hs[inst].ServeHTTP(rr, req)
+	}()
+	if aborted != "" {
+		return &httpResult{status: 0, aborted: aborted, header: http.Header{}}
+	}
 	res := &httpResult{status: rr.Code, rpcErr: strings.EqualFold(rr.Header().Get("X-VGI-RPC-Error"), "true"),
 		body: rr.Body.Bytes(), header: rr.Header()}
 	res.batches, res.parseOK = parseIPCBody(res.body)
@@ -356,16 +409,25 @@ func parseIPCBody(body []byte) ([]respBatch, bool) {
 	return out, true
 }
 
-// initBody builds the /init request body for a scripted method.
+// initBody builds the /init request body for a scripted static method.
 func (e *streamEnv) initBody(method, cancel, prog string) []byte {
+	return e.initBodyFull(method, "", 0, cancel, prog)
+}
+
+// initBodyFull also names the stream kind (for the dynamic method) and a header value (0: none).
+func (e *streamEnv) initBodyFull(method, kind string, hdr int64, cancel, prog string) []byte {
 	mem := memory.NewGoAllocator()
-	cols := make([]arrow.Array, 3)
-	for i, v := range []string{prog, cancel, e.recID} {
+	cols := make([]arrow.Array, 5)
+	for i, v := range []string{prog, cancel, e.recID, kind} {
 		b := array.NewStringBuilder(mem)
 		b.Append(v)
 		cols[i] = b.NewArray()
 		b.Release()
 	}
+	hb := array.NewInt64Builder(mem)
+	hb.Append(hdr)
+	cols[4] = hb.NewArray()
+	hb.Release()
 	batch := array.NewRecordBatch(scriptParamsSchema, cols, 1)
 	for _, c := range cols {
 		c.Release()
@@ -636,6 +698,9 @@ func (e *streamEnv) renderResp(r *httpResult) string {
 	st := strconv.Itoa(r.status)
 	if r.rpcErr {
 		st += "E"
+	}
+	if r.aborted != "" {
+		return "!connection-aborted"
 	}
 	if !r.parseOK {
 		return st + " !unparseable-body"
